@@ -191,7 +191,7 @@ array_accessor:
 	;
 
 any_level:
-	INT_P							{ $$, _ = strconv.Atoi($1) }
+	INT_P							{ n, _ := strconv.ParseInt($1, 0, 64); $$ = int(n) }
 	| LAST_P						{ $$ = -1 }
 	;
 
